@@ -7,6 +7,7 @@ import builtins
 import fractions
 import math as _math
 import sys
+import threading
 import time
 
 import mpmath
@@ -97,6 +98,25 @@ def ipow(t, n):
         r = t if first else r * t
         first = False
     return r if n >= 0 else 1 / r
+
+
+PARAM_NAMES = set()     # names of symbolic constants / parameters (as opposed to point coordinates); set by the harness
+
+
+def _only_params(t):
+    names = set()
+    seen = set()
+
+    def walk(u):
+        if u.get_id() in seen:
+            return
+        seen.add(u.get_id())
+        if z3.is_const(u) and u.decl().kind() == z3.Z3_OP_UNINTERPRETED:
+            names.add(u.decl().name())
+        for c in u.children():
+            walk(c)
+    walk(t)
+    return bool(names) and names <= PARAM_NAMES
 
 
 AXIOM_SCHEMAS = [
@@ -193,6 +213,9 @@ class Theory:
             out.append(z3.Implies(a > 0, self.ln(t) == b * self.ln(a)))
             if gb is not None and gb.denominator == 1 and abs(gb.numerator) <= 8:
                 out.append(z3.Implies(a > 0, t == ipow(a, gb.numerator)))
+            elif gb is None and _only_params(b):
+                for k in range(-2, 7):      # a symbolic constant as exponent that a path condition pins to a small integer
+                    out.append(z3.Implies(z3.And(a > 0, b == k), t == ipow(a, k)))
             bk = b.decl().kind() if z3.is_app(b) else None
             if bk == z3.Z3_OP_ADD:
                 prod = z3.RealVal(1)
@@ -343,7 +366,7 @@ class Engine:
             self.n_budget_skipped += 1        # job time budget exhausted: inconclusive, never a verdict
             raise BudgetExhausted()
         s = self.solver(*extra, timeout=timeout)
-        r = s.check()
+        r = s.check()       # (z3's timeout is not always honoured inside nonlinear arithmetic: the job scheduler kills stuck workers)
         self.nq += 1
         self.tq += time.time() - t
         self.last = s
